@@ -1146,13 +1146,9 @@ func funRound(v *decimal.Big) (*decimal.Big, error) {
 }
 
 func funRoundBank(v *decimal.Big) (*decimal.Big, error) {
-	// 将 v 的小数部分提取出来
-	mv := newDecimalBig().Rem(v, decimal.New(1, 0))
-	if mv.Cmp(decimal.New(5, -1)) <= 0 {
-		return funCeil(v)
-	} else {
-		return funFloor(v)
-	}
+	ctx := decimal.Context128
+	ctx.RoundingMode = decimal.ToNearestEven
+	return ctx.RoundToInt(newDecimalBig().Copy(v)), nil
 }
 
 func funRoundCash(v, places *decimal.Big) (*decimal.Big, error) {
